@@ -28,7 +28,11 @@ from .. import capyrun as R
 
 RULE = ("program = up to 30 generated types (every primitive i8..i128,u8..u128,isize,usize,f32,f64,bool,char,str,void,type,any,rawptr,mut rawptr closed under "
         "array(len 0..5)/slice/^/^mut/?/E!T/distinct/struct(0..4 members)/enum(1..4 variants, payloads, explicit/implicit/mixed discriminants)/function pointer, "
-        "depth <= 2, plus plain aliases, re-written structural types and structurally identical twin struct/enum/distinct declarations) + the primitives and "
+        "depth <= 2, plus plain aliases, re-written structural types and structurally identical twin struct/enum/distinct declarations; every 4th program also has four "
+        "enum-inside-enum groups: the outer enum's payload is another enum directly / a struct with an enum member / an array of enums / an optional enum, the two enums "
+        "differing in size, variant count and tag offset) + the primitives and variant types used; the type table (= order in which the compiler first meets the types as "
+        "values) is in declaration order, reversed (composite before its components) or shuffled (with shuffled global declarations) for a third of the programs each; "
+        "the primitives and "
         "variant types used; evaluation = one table entry of one executed program whose reflection (run time and comptime), measurements, equality rows "
         "and any-types were all judged; non-trivial = entry of a composite type (not a primitive); distinct = distinct (kind, canonical structural shape) of judged composite entries")
 ASSUME = ["a type is 'the same type' as another iff it is a plain alias (`A :: T;`) of it or the same structural type expression (array/slice/pointer/optional/error union/"
@@ -147,7 +151,7 @@ class Prog:
 
     def pick_child(self, maxdepth, want_deep=False, exclude=None):
         rng = self.rng
-        pool = [t for t in self.gen_types() if t.depth <= maxdepth]
+        pool = [t for t in self.gen_types() if t.depth <= maxdepth and not getattr(t, "reserved", False)]
         if exclude:
             pool = [t for t in pool if not exclude(t)]
         deep = [t for t in pool if t.depth == maxdepth and maxdepth > 0]
@@ -325,16 +329,81 @@ class Prog:
             return self.mk_enum(vs, rng)
         return None
 
-    def build(self, ntypes):
+    def declare(self, t):
+        t.reserved = True          # only the nest group itself refers to its types, so nothing else gives them a type id earlier
+        t.name = f"T{len(self.gen)}"
+        self.gen.append(t)
+        self.decls.append(f"{t.name} :: {t.text};")
+        return t
+
+    def add_nests(self):
+        """enums whose payload contains another enum: directly, through a struct member, an array element, an optional. The inner enum has small
+        payloads and 2..4 variants, the outer one a different variant count and one large payload next to the nesting one, so that size, stride,
+        variant list and tag offset of the two all differ (rows of the two exchanged in the reflection tables cannot go unnoticed)"""
+        rng = self.rng
+        self.nests = []
+        vias = ["direct", "struct", "array", "optional"]
+        rng.shuffle(vias)
+        small = [None, None, "u8", "i16", "bool", "char", "u32", "f32"]
+        big = ["u64", "f64", "i128", "str", "u128", "any"]
+        inames = ["Red", "Green", "Blue", "Up", "Down", "Left", "Right", "Lo", "Hi"]
+        onames = ["Leaf", "Node", "Wrap", "Pair", "Many", "Zero", "Big", "Rest"]
+
+        def discs(n):
+            mode = rng.weighted([("explicit", 2), ("implicit", 2)])
+            if mode == "implicit":
+                return [None] * n
+            return rng.sample(list(range(0, 256)), n)
+        for via in vias:
+            n_in = rng.range(2, 4)
+            ds = discs(n_in)
+            vs = []
+            for i, nm in enumerate(rng.sample(inames, n_in)):
+                pn = rng.pick(small)
+                vs.append((nm, self.use(self.prims[pn]) if pn else None, ds[i]))
+            inner = self.declare(self.mk_enum(vs, rng))
+            if via == "direct":
+                mid = inner
+            elif via == "struct":
+                ms = [("e", inner), ("n", self.use(self.prims[rng.pick(["u8", "i32", "u16", "i64"])]))]
+                if rng.chance(1, 2):
+                    ms.reverse()
+                mid = self.declare(self.mk_struct(ms, rng))
+            elif via == "array":
+                mid = self.declare(self.mk_array(rng.range(1, 3), inner, rng))
+            else:
+                mid = self.declare(self.mk_opt(inner, rng))
+            n_out = rng.pick([n for n in (1, 2, 3, 4) if n != n_in])
+            ds = discs(n_out)
+            names = rng.sample(onames, n_out)
+            at = rng.below(n_out)
+            vs = []
+            for i, nm in enumerate(names):
+                if i == at:
+                    pay = mid
+                elif i == (at + 1) % n_out:
+                    pay = self.use(self.prims[rng.pick(big)])           # a payload larger than the inner enum's largest
+                else:
+                    pn = rng.pick(small)
+                    pay = self.use(self.prims[pn]) if pn else None
+                vs.append((nm, pay, ds[i]))
+            outer = self.declare(self.mk_enum(vs, rng))
+            self.nests.append({"via": via, "inner": inner, "outer": outer})
+
+    def build(self, ntypes, nest=False, order="decl"):
         rng = self.rng
         n1 = max(3, ntypes * 2 // 5)
         guard = 0
+        self.nests = []
         for n in self.force_prims:          # every primitive is a table entry of some program of a run
             self.use(self.prims[n])
+        if nest:
+            self.add_nests()
+            n1 = len(self.gen) + 3
         while len(self.gen) < ntypes and guard < 400:
             guard += 1
             i = len(self.gen)
-            made = self.gen_types()
+            made = [t for t in self.gen_types() if not getattr(t, "reserved", False)]
             r = rng.below(100)
             t = None
             if made and r < 7:
@@ -361,8 +430,17 @@ class Prog:
         for must in ("i64", "u64"):
             if must not in self.used_prims:
                 self.used_prims.append(must)
-        # table: generated types (by name; structural ones sometimes re-written inline), aliases, primitives, variant types
-        for g in self.gen:
+        # table: generated types (by name; structural ones sometimes re-written inline), aliases, primitives, variant types.
+        # The order of the table is the order in which the compiler first meets the types as values (the comptime block and every function go through
+        # `table()` / rows in table order): declaration order (components first), reversed (a composite before its components) or shuffled
+        listed = list(self.gen)
+        if order == "reverse":
+            listed.reverse()
+        elif order == "shuffle":
+            rng.shuffle(listed)
+            self.decls = rng.shuffle(list(self.decls))          # global declarations may come in any order
+        self.order = order
+        for g in listed:
             if isinstance(g, Ty):
                 tref = g.name if (g.nominal or g.kind == K_FN or rng.chance(2, 3)) else par(g.text)
                 self.entries.append({"ty": g, "tref": tref, "vref": tref, "label": g.name, "generated": True})
@@ -388,6 +466,11 @@ class Prog:
             self.entries.append({"ty": self.prims["void"], "tref": "void", "vref": "void", "label": "void", "generated": False})
         for k, e in enumerate(self.entries):
             e["k"] = k
+        pos = {}
+        for e in self.entries:
+            pos.setdefault(id(e["ty"]), e["k"])
+        for n in self.nests:
+            n["outer_first"] = pos[id(n["outer"])] < pos[id(n["inner"])]
         return self
 
 
@@ -660,9 +743,14 @@ def program_text(P):
         if e["ty"].addressable():
             src.append(f"W{e['k']} :: struct {{ pre: u8, x: {e['tref']}, post: u8 }};")
     src.append("table :: () -> [NT]type {\n    type.[" + ", ".join(e["vref"] for e in ents) + "]\n}")
+    # every function that mentions type values starts by mentioning all of them in table order, so that the order in which the compiler first meets
+    # the types does not depend on the order in which it compiles the functions
+    ORD = "    ord := type.[" + ", ".join(e["vref"] for e in ents) + "];\n    sink(^ord);"
+    src.append("sink :: (p: ^[NT]type) {}")
     chunks = [ents[i:i + 6] for i in range(0, nt, 6)]
     for ci, ch in enumerate(chunks):
         src.append(f"m{ci} :: (zero: ^ZB, buf: ^mut ZB, tys: ^[NT]type) {{")
+        src.append(ORD)
         for e in ch:
             src += measure_block("    ", e)
         src.append("}")
@@ -670,6 +758,7 @@ def program_text(P):
     rows = [e for e in ents if e["generated"]]
     for ci in range(0, len(rows), 6):
         src.append(f"q{ci // 6} :: () {{")
+        src.append(ORD)
         for e in rows[ci:ci + 6]:
             for base, slot in ((0, 40), (64, 41)):
                 terms = [f"(u64.({e['vref']} == {o['vref']}) << {o['k'] - base})" for o in ents[base:base + 64]]
@@ -677,6 +766,7 @@ def program_text(P):
                     src.append(f"    vr_u64({ID(e['k'], slot)}, " + " | ".join(terms) + ");")
         src.append("}")
     src.append("main :: () -> i32 {")
+    src.append(ORD)
     src += ["    rt := describe_all();", "    dump(1, ^rt);", "    CT :: comptime { describe_all() };", "    ct := CT;", "    dump(2, ^ct);",
             "    zero : ZB;", "    buf : ZB;", "    clr(^mut zero);", "    tys := table();"]
     for ci in range(len(chunks)):
@@ -689,7 +779,9 @@ def program_text(P):
 
 def make_case(seed, idx, ntypes=NTYPES):
     rng = C.Rng(seed, 1800 + idx)
-    P = Prog(rng, force_prims=[PRIM_NAMES[(idx * 3 + j) % len(PRIM_NAMES)] for j in range(3)]).build(ntypes)
+    # every 4th program carries the nested-enum groups; the table order cycles through declaration order / reversed / shuffled
+    P = Prog(rng, force_prims=[PRIM_NAMES[(idx * 3 + j) % len(PRIM_NAMES)] for j in range(3)]).build(
+        ntypes, nest=(idx % 4 == 1), order=("decl", "reverse", "shuffle")[idx % 3])
     return P, program_text(P)
 
 
@@ -1078,6 +1170,9 @@ def judge_case(P, files, c, r, gen):
     out["cnt"] = J.cnt
     for key, sig, what in J.viol:
         out["viol"].append({"key": key, "sig": sig, "what": f"{name}: {what}", "witness": wit})
+    J.bump("programs_table_order_" + P.order)
+    for n in P.nests:
+        J.bump(f"nested_enum_via_{n['via']}_{'outer' if n['outer_first'] else 'inner'}_first")
     for e in P.entries:
         J.bump("entries_" + KNAME[e["ty"].kind])
         if e["ty"].kind >= 16:
